@@ -224,6 +224,36 @@ def run(world, rep, tier, only=None):
         ("ext2fs_rb_private", "rcursor_next") in T.fields(n.ev.get("rhs") or {}) for n in tb.events("S")),
         "rb_test_bit reads bp->rcursor_next")
 
+    # ------------------------------------------------------------------ C16.e a position reaches a backend only after it was compared with the bitmap's bounds
+    # The backends trust the positions they are given (the bit array indexes with them, the tree stores them).  A set
+    # over [start, end] answers "not a member / cannot hold it" for anything outside: every generic wrapper that hands
+    # a caller-supplied position to a backend operation first compares it with the bitmap's start and with its end or
+    # real_end (positions the wrapper computes from those fields itself need no test).
+    POS_OPS = {"mark_bmap", "unmark_bmap", "test_bmap", "mark_bmap_extent", "unmark_bmap_extent", "test_clear_bmap_extent",
+               "set_bmap_range", "get_bmap_range", "find_first_zero", "find_first_set"}
+    n_e = 0
+    for f in prog.fns_in_file(GB):
+        params = set(f.params)
+        for n in f.call_nodes():
+            slot = [x for x in T.call_names(n.ev["x"]) if x.startswith("ext2_bitmap_ops.")]
+            if not slot or slot[0].split(".")[1] not in POS_OPS:
+                continue
+            a = arg(n, 1)
+            v = T.vars_in(a or {})
+            if not (v & params):
+                rep.examined()      # a position derived inside the wrapper (padding, the result of a search loop)
+                continue
+            n_e += 1
+            lits = control_lits(f, n)
+            lo = any("start" in T.field_names(x) and (T.vars_in(x) & v) for t, x in lits)
+            hi = any(({"end", "real_end"} & set(T.field_names(x))) and (T.vars_in(x) & v) for t, x in lits)
+            op = slot[0].split(".")[1]
+            if op.startswith("find_first"):
+                hi = hi or any({"end", "real_end"} & set(T.field_names(x)) for t, x in lits)   # the upper limit is a second argument
+            rep.ob("C16.e", site(f, "%s: position compared with the bitmap's bounds before the backend" % op), lo and hi,
+                   "`%s` handed to %s under a comparison with ->start: %s, with ->end/->real_end: %s" % (T.pp(a)[:20], op, lo, hi))
+    rep.floor("C16.e caller-supplied positions handed to backend operations", n_e, 8)
+
     # ------------------------------------------------------------------ C16.d set_range assigns in both backends
     # the bit array copies the bytes over the range; the tree must drop what the range held before inserting
     ba = prog.fn("ba_set_bmap_range", "lib/ext2fs/blkmap64_ba.c")
